@@ -58,6 +58,16 @@ TEMPLATES = [
 ]
 
 
+# every kind of statement end against every kind of statement start (whether a terminator may be omitted there
+# depends on the pair: a '}' ends a block, an object literal, a function expression or a declaration)
+_ENDS = ['x = {}', 'x = {a: 1}', 'x = function(){}', 'x = [1]', 'x = (a)', 'x = a', 'x = 1', 'x = "s"', 'x = /r/', 'x = this',
+         'x = a.b', 'x = a[0]', 'x = f()', 'x = new F', 'x = a++', 'if (a) {}', '{}', 'function f(){}', 'do ; while (0)',
+         'x = {get a(){}}', 'var v = {}', 'var v = function g(){}', 'x = a.return', 'x = !{}', 'x = typeof function(){}']
+_STARTS = ['++y', '--y', '(y)', '[y]', '/r/.test(y)', '+y', '-y', 'y', '{y}', 'function g(){}', 'var w', 'if (y) z', '!y',
+           '"s"', '.5', 'in y', 'instanceof y', '= y', ', y', '? y : z', '.y']
+TEMPLATES = TEMPLATES + ['%s@%s' % (e, st) for e in _ENDS for st in _STARTS]
+
+
 def variants_of_tokens(toks, rng, max_subsets):
     """yield (subset_indices, text) for W4"""
     semis = [i for i, (t, tag) in enumerate(toks) if tag == 'semi']
@@ -108,8 +118,19 @@ class AsiLog(object):
         def after_auto(snap, result, args, kwargs):
             ctx.hit('auto_semi')
 
+        def before_error(args, kwargs):
+            # the parser hands a synthetic semicolon back as the offending token: the grammar refused it where it
+            # was offered (a '}' LF '/re/' is first read as a division, offered a semicolon, then re-read as a
+            # regex): it was not supplied
+            tok = args[1] if len(args) > 1 else kwargs.get('token')
+            if tok is not None and getattr(tok, 'type', None) == 'AUTOSEMI' and self.events:
+                self.events.pop()
+                ctx.count('tentative_semicolon_refused')
+
+        from calmjs.parse.parsers.es5 import Parser
         self.recs = [probe.wrap(Lexer, '_create_semi_token', after=after_create),
-                     probe.wrap(Lexer, 'auto_semi', after=after_auto)]
+                     probe.wrap(Lexer, 'auto_semi', after=after_auto),
+                     probe.wrap(Parser, 'p_error', before=before_error)]
         return self
 
     def remove(self):
